@@ -217,6 +217,22 @@ func runC08(tier string, seed uint64) {
 					s.Delete(b, k)
 				}
 			}
+			// the limit counts bytes, not characters: 512 two-byte characters fit, 513 do not, nor do 342
+			// three-byte ones (1026 bytes in 342 characters)
+			for _, k := range []string{strings.Repeat("\xc3\xa9", 512), strings.Repeat("\xc3\xa9", 513), strings.Repeat("\xe2\x82\xac", 342), strings.Repeat("\xf0\x9f\x98\x80", 257)} {
+				if kind != "mem" && kind != "bolt" {
+					if len(k) <= 1024 {
+						continue
+					}
+					k = "d/" + k[:len(k)/2] + "/" + k[len(k)/2:] // segments a file system can hold; 3 more bytes
+				}
+				r := s.PutRaw(b, k, [][2]string{cl(len(body))}, body, -1)
+				snapshot()
+				if r.Status == 200 {
+					s.Get(b, k, "")
+					s.Delete(b, k)
+				}
+			}
 			// metadata at limit-1, limit, limit+1 (limit 300; Content-Length is not stored; Last-Modified counts 42)
 			for _, tot := range []int{299, 300, 301} {
 				pad := tot - 42 - len("X-Amz-Meta-Pad")
